@@ -18,9 +18,11 @@ ASSUMPTIONS = ['a frame the library does not accept when complete is skipped '
 
 def shards(tier, seed):
     n = 16
-    return [{'name': 's%d' % i, 'i': i,
+    out = [{'name': 's%d' % i, 'i': i,
              'frames': 90 if tier == 'quick' else 1900,
              'big': 1 if tier == 'quick' else 6} for i in range(n)]
+    return common.with_configs(out, [common.LOG_DEBUG, common.W_ERROR,
+                                     common.PY_O], take=2)
 
 
 def cases(shard, rnd):
@@ -135,6 +137,39 @@ def run_case(case, rec):
                           % (k, n, case['kind'], u.describe()), wit)
         else:
             rec.count('prefix_reported_incomplete')
+    # a sans-io client's receive buffer: ONE mutable bytearray that grows in
+    # place between calls (the same object is handed to unmarshal each time)
+    # (only for frames the library demonstrably accepts from a bytearray:
+    # the documented input type is bytes, and frames carrying a non-empty
+    # field table are refused when handed over as a bytearray)
+    if case['cuts'] is None and n <= 600 and \
+            common.lib_unmarshal(bytearray(data)).ok:
+        buf = bytearray()
+        step = 1 if n <= 64 else 3
+        for k in list(range(0, n, step)):
+            buf += data[len(buf):k]
+            rec.ev()
+            u = common.lib_unmarshal(buf)
+            if u.ok or not common.is_unmarshaling_exception(u.exc):
+                rec.violation('growing-buffer-prefix:%s' % (
+                    'returned-frame' if u.ok else u.exc_type),
+                    'receive buffer (one bytearray grown in place) holding '
+                    '%d of %d bytes of a %s frame: %s'
+                    % (k, n, case['kind'], 'returned a frame, consumed %r'
+                       % (u.value[0],) if u.ok else u.describe()),
+                    {'frame': data, 'kind': case['kind'], 'cuts': None})
+                return
+        buf += data[len(buf):]
+        u = common.lib_unmarshal(buf)
+        if not u.ok or u.value[0] != n:
+            rec.violation('growing-buffer-complete',
+                          'the complete frame in the grown buffer: %s'
+                          % (u.describe() if not u.ok
+                             else 'consumed %r of %d' % (u.value[0], n)),
+                          {'frame': data, 'kind': case['kind'],
+                           'cuts': None})
+            return
+        rec.count('growing_buffer_frames')
     if rec.evaluations % 50 < 2 and n < 400:
         rec.sample({'frame_hex': common.hexs(data, 160), 'kind': case['kind'],
                     'cut_points': 'all 0..%d' % (n - 1)
@@ -152,6 +187,8 @@ def gates(m, tier):
             if '%s@%s' % (k, c) not in cc:
                 out.append('cut class %s of %s frames never exercised'
                            % (c, k))
+    if not m.counters.get('growing_buffer_frames'):
+        out.append('no frame was fed through a growing bytearray buffer')
     if not m.counters.get('prefixes_of_frames_above_default_frame_max'):
         out.append('no frame larger than the default frame-max was cut')
     if m.counters.get('complete_frame_not_accepted', 0) > \
